@@ -293,6 +293,15 @@ def slice_bounds(pr, t):
 
 def discharge(F, cg, site, pr):
     """extra discharge rule for sa.panics: str slicing sites"""
+    if site.kind == "std-panicking" and site.detail.endswith("<impl str>::split_at"):
+        # s.split_at(k) panics exactly when &s[k..] does
+        fn = site.fn
+        t = fn.blocks[site.block]["term"]
+        k = P.const_int(pr.operand(t["args"][1])) if len(t["args"]) == 2 else None
+        L = root_local(fn, pr, t["args"][0]) if k is not None else None
+        if L is None:
+            return None
+        return facts_for(fn, pr).slice_ok(L, k, None, site.block)
     if site.kind != "index" or not site.info.get("container", "").startswith("str"):
         return None
     fn = site.fn
